@@ -171,6 +171,28 @@ PROPS = {
                      "process environment is a fixed map during a call; os.path.join on relative components",
                      "content of the bundled CSV files: checked by evaluation on every run (exhaustive, 19 files)"],
     ),
+    'C19': dict(
+        functions=[M + 'datasets._base._sha256', M + 'datasets._base._fetch_remote', M + 'datasets._base.load_csv_dataset_from_remote'],
+        level='proof',
+        explanation=("Ghost file system + network counter (pyvc/oslib.py). Proved on the real code: (a) _sha256 digests exactly the bytes "
+                     "of the file (loop invariant over z3 strings); (b) _fetch_remote returns only after a successful download, makes "
+                     "at most n_retries+1 network accesses, absorbs only URLError/TimeoutError, terminates, and raises OSError iff the "
+                     "SHA-256 of the payload differs from the pinned one; (c) CRASH/EXCEPTION INVARIANT: after EVERY statement of "
+                     "load_csv_dataset_from_remote and on EVERY exceptional edge the cache entry is absent or a complete copy of "
+                     "verified data (the only write to it is the atomic rename of a complete, verified file); (d) a cached dataset "
+                     "is served without network access and what is returned is exactly unpickle(entry); (e) rely/guarantee: every "
+                     "file-system action stays below the function's own fresh temporary directory or is that rename - the invariant "
+                     "is stable under these actions, hence under any number of concurrent loaders; (f) independence of datasets: "
+                     "(d) + distinct cache slots (C18)."),
+        assumptions=["ASSUMED OS/stdlib contracts: os.rename is atomic (POSIX); TemporaryDirectory yields a fresh directory removed on every edge; "
+                     "urlretrieve leaves a complete file or raises leaving it absent/partial; pickle.dump completes or leaves a partial "
+                     "file, the unreferenced file object is closed at the end of the statement (CPython refcounting); "
+                     "pickle.load(pickle.dump(d)) = d; SHA-256 is treated as injective (collision-freeness)",
+                     "A-paths: syntactically different path terms denote different files",
+                     "a process kill inside a library call is represented by that call's failure outcomes (absent/partial target)",
+                     "real kernel scheduling is not observed: (e) is a proof about the contracts",
+                     "validate_checksum=True (all 76 loaders pass it: C18 obligation validate-checksum-on); unpack flag False"],
+    ),
     'C20': dict(
         functions=[WV + m for m in ('__init__', 'from_2d_array', 'slice_by_index', 'slice_by_value', 'interpolate', 'truncate_by_index',
                                     'truncate_by_value')] + [PR + 'truncate', PR + 'interpolate', SAU + 'integral',
